@@ -1,5 +1,5 @@
 (* C05 — fields libtins derives are correct on the wire: the checksums. *)
-From LT Require Import Base.Prelude Base.CInt Gen.CrcTable Model.Checksum Proofs.OnesCompl Proofs.Crc.
+From LT Require Import Base.Prelude Base.CInt Gen.CrcTable Model.Checksum Proofs.OnesCompl Proofs.Crc Model.Wifi Proofs.CrcResidue.
 Local Open Scope Z_scope.
 
 (* libtins sums native little-endian words; that is the RFC 1071 big-endian sum up to the byte swap *)
@@ -46,6 +46,13 @@ Print Assumptions C05_crc32_is_ieee_802_3_crc32.
 Theorem C05_crc32_is_table_driven_ieee_crc32 : forall b, crc32 b = crc32_ieee b.
 Proof. exact crc32_is_ieee. Qed.
 Print Assumptions C05_crc32_is_table_driven_ieee_crc32.
+
+(* the receiver's view: for EVERY frame, running the CRC over the frame followed by the FCS/ICV libtins derived for it (stored
+   little-endian, as RadioTap appends it and WEP/TKIP encrypt it) gives the constant residue 0x2144DF1C -- the check
+   hardware and streaming decoders apply instead of comparing the stored value *)
+Theorem C05_crc32_frame_plus_fcs_has_the_standard_residue : forall m, bytes_ok m -> crc32 (m ++ le32 (crc32 m)) = 558161692.
+Proof. exact crc32_residue. Qed.
+Print Assumptions C05_crc32_frame_plus_fcs_has_the_standard_residue.
 
 Example C05_crc_nonvacuous :
   (crc32_bitwise [49;50;51;52;53;54;55;56;57] = 3421780262) /\ (crc32_bitwise nil = 0) /\
